@@ -401,7 +401,10 @@ func NewClient(tr connect.HTTPClient, cfg Cfg, extra ...connect.ClientOption) *c
 
 // CallResult is what a client observed for one whole call.
 type CallResult struct {
-	Msgs    [][]byte
+	Msgs [][]byte
+	// EndErr is the error value with which a streaming Receive reported the
+	// clean end of the stream (it wraps io.EOF and is handed to user code).
+	EndErr  error
 	Err     error // terminal error (nil = clean end)
 	Header  http.Header
 	Trailer http.Header
@@ -483,6 +486,8 @@ func RunCall(ctx context.Context, cl *connect.Client[BV, BV], kind Kind, reqs []
 			if err != nil {
 				if !errors.Is(err, io.EOF) {
 					out.Err = err
+				} else {
+					out.EndErr = err
 				}
 				break
 			}
